@@ -294,6 +294,7 @@ def translate(repo):
     out.append('Definition to_ast_gen : list (field * tkind * field) := [%s].' % '; '.join(to_ast))
     out.append('Definition cache_key_gen : list field := [%s].' % '; '.join(cache_key_fields(repo, as_tuple)))
     out.append('Definition converted_call_reentries_keep_options : nat := %d.' % reentries_keep_options(repo))
+    out.append('Definition allowlist_key_gen : list field := [%s].' % '; '.join(allowlist_key_fields(repo, as_tuple)))
     return '\n'.join(out) + '\n'
 
 
@@ -339,6 +340,54 @@ def cache_key_fields(repo, as_tuple):
                 _fail(e, 'get_caching_key tuple element ' + ast.dump(e))
         return out
     _fail(v, 'get_caching_key return value ' + ast.dump(v))
+
+
+def allowlist_key_fields(repo, as_tuple):
+    """malt/impl/conversion.py: the sub-key of the cache of "call as-is" verdicts that converted_call consults first.
+    Recognised: is_in_allowlist_cache(entity, options) asks `_ALLOWLIST_CACHE.has(entity, K)` and cache_allowlisted
+    stores `_ALLOWLIST_CACHE[entity][K] = True` with the same K, where K is `options` itself, a tuple of its
+    attributes, or a call of a module-level helper whose body returns one of these."""
+    path = os.path.join(repo, 'malt', 'impl', 'conversion.py')
+    with open(path) as f:
+        tree = ast.parse(f.read())
+    fns = {n.name: n for n in tree.body if isinstance(n, ast.FunctionDef)}
+
+    def fields_of(e, depth=0):
+        if isinstance(e, ast.Name) and e.id == 'options':
+            return list(as_tuple)
+        if isinstance(e, ast.Tuple):
+            out = []
+            for x in e.elts:
+                if isinstance(x, ast.Attribute) and isinstance(x.value, ast.Name) and x.value.id == 'options' and x.attr in FIELD:
+                    out.append(FIELD[x.attr])
+                else:
+                    raise Untranslatable('untranslatable: conversion.py:%s: allowlist sub-key element %s' % (x.lineno, ast.unparse(x)))
+            return out
+        if isinstance(e, ast.Call) and isinstance(e.func, ast.Name) and e.func.id in fns and depth == 0 and not e.keywords \
+                and len(e.args) == 1 and isinstance(e.args[0], ast.Name) and e.args[0].id == 'options':
+            h = fns[e.func.id]
+            body = [st for st in h.body if not (isinstance(st, ast.Expr) and isinstance(st.value, ast.Constant))]
+            if [a.arg for a in h.args.args] == ['options'] and len(body) == 1 and isinstance(body[0], ast.Return):
+                return fields_of(body[0].value, 1)
+        raise Untranslatable('untranslatable: conversion.py:%s: allowlist sub-key %s' % (getattr(e, 'lineno', '?'), ast.unparse(e)))
+    keys = []
+    for name in ('is_in_allowlist_cache', 'cache_allowlisted'):
+        if name not in fns or [a.arg for a in fns[name].args.args] != ['entity', 'options']:
+            raise Untranslatable('untranslatable: conversion.py: %s(entity, options) not found' % name)
+        found = None
+        for n in ast.walk(fns[name]):
+            if name == 'is_in_allowlist_cache' and isinstance(n, ast.Call) and ast.unparse(n.func) == '_ALLOWLIST_CACHE.has' \
+                    and len(n.args) == 2 and ast.unparse(n.args[0]) == 'entity':
+                found = n.args[1]
+            if name == 'cache_allowlisted' and isinstance(n, ast.Subscript) and isinstance(n.ctx, ast.Store) \
+                    and ast.unparse(n.value) == '_ALLOWLIST_CACHE[entity]':
+                found = n.slice
+        if found is None:
+            raise Untranslatable('untranslatable: conversion.py: %s does not use _ALLOWLIST_CACHE as expected' % name)
+        keys.append(fields_of(found))
+    if keys[0] != keys[1]:
+        raise Untranslatable('untranslatable: conversion.py: the allowlist cache is read and written under different sub-keys')
+    return keys[0]
 
 
 def reentries_keep_options(repo):
